@@ -1,6 +1,6 @@
 """C17 - time-limited evidence judged against the clock at verification time."""
 import json, os, sys, time
-from harness import fw, impl, authsim, regsim, regcat, regrun, oracle
+from harness import realclock, fw, impl, authsim, regsim, regcat, regrun, oracle
 
 TRUSTED = [
     "Coq 8.16.1 kernel; the SafetyNet window theorems are lia over Z with the clock in milliseconds and its truncation to seconds written into the statement",
@@ -89,6 +89,43 @@ def run(tier, seed):
     else:
         os.environ["TZ"] = saved_tz
     time.tzset()
+    # daylight-saving transitions of the process time zone (the repeated and the skipped hour): attestation and verification on opposite sides of a switch are
+    # still seconds apart - the window is a difference of epoch instants
+    import calendar
+    DST = [("CET-1CEST,M3.5.0,M10.5.0/3", [(2024, 3, 31, 1, 0, 0), (2024, 10, 27, 1, 0, 0), (2025, 3, 30, 1, 0, 0)]),
+           ("EST5EDT,M3.2.0,M11.1.0", [(2024, 3, 10, 7, 0, 0), (2024, 11, 3, 6, 0, 0)]),
+           ("AEST-10AEDT,M10.1.0,M4.1.0/3", [(2024, 4, 6, 16, 0, 0), (2024, 10, 5, 16, 0, 0)]),
+           ("LHST-10:30LHDT-11,M10.1.0,M4.1.0", [(2024, 4, 6, 15, 0, 0), (2024, 10, 5, 15, 30, 0)])]
+    saved_tz3 = os.environ.get("TZ")
+    saved = vst.time
+    try:
+        for tz, switches in DST:
+            os.environ["TZ"] = tz
+            time.tzset()
+            for sw in switches:
+                X = calendar.timegm(sw + (0, 0, 0))
+                for T in (X - 5, X - 1, X, X + 1, X + 5, X + 1795, X + 3595, X + 3600, X + 3605):
+                    vst.time = impl._FakeTime(T, 0.25)
+                    for off in (-9000, -5000, -1000, 0, 5000, 9000, -11000, 11000, -3600000, 3600000, -3605000, 3595000):
+                        ts = T * 1000 + 250 + off
+                        try:
+                            f(ts)
+                            ok = True
+                        except Exception:
+                            ok = False
+                        chk.evals += 1
+                        must = -10000 <= off <= 9000
+                        if ok != must:
+                            chk.violation(f"SafetyNet timestamp {off:+d} ms from the clock {'rejected' if must else 'accepted'} around a daylight-saving switch of TZ={tz}", f"ts-window-dst off={off} TZ={tz.split(',')[0]}",
+                                          {"entry": "verify_safetynet_timestamp", "TZ": tz, "clock_epoch_s": T + 0.25, "timestamp_ms": ts, "switch_at_epoch_s": X, "accepted": ok})
+                        chk.seen(("ts-dst", tz, T - X, off))
+    finally:
+        vst.time = saved
+        if saved_tz3 is None:
+            os.environ.pop("TZ", None)
+        else:
+            os.environ["TZ"] = saved_tz3
+        time.tzset()
     # JSON numbers that are no integers: NaN / infinities are outside every window, a fractional timestamp is judged like the number it is
     saved = vst.time
     vst.time = impl._FakeTime(T0, 0.25)
@@ -147,11 +184,12 @@ def run(tier, seed):
                 B.run_case(regrun.policy_of(pd), reg, "dict", exp, f"safetynet-ts{off_ms:+d}ms ctsProfileMatch={cts}", scn=s)
     # 3. certificate windows: clock dense around each boundary
     sparse = [-400 * DAY, -30 * DAY, 30 * DAY, 2000 * DAY]
-    for fmt in regsim.X5C_FORMATS:
+    # (the leaf's own window in three variants: ordinary dates; valid since the Unix epoch - what Keymaster writes for "no activation date"; valid until 9999-12-31 -
+    #  RFC 5280's "no well-defined expiration": remarkable dates on one certificate change nothing about how each certificate is judged)
+    for fmt, (leaf_nb, leaf_na) in [(f, w) for f in regsim.X5C_FORMATS for w in ((T0 - DAY, T0 + 365 * DAY), (0, T0 + 150 * DAY), (T0 - DAY, 253402300799))]:
         ni = 0 if fmt == "fido-u2f" else 1
         s = regsim.RScn(fmt, "ES256-P256")
         s.n_inter = ni
-        leaf_nb, leaf_na = T0 - DAY, T0 + 365 * DAY
         inter_nb, inter_na = T0 - 5 * DAY, T0 + 300 * DAY
         root_nb, root_na = T0 - 10 * DAY, T0 + 200 * DAY
         s.k["leaf_nb"], s.k["leaf_na"] = leaf_nb, leaf_na
@@ -164,7 +202,8 @@ def run(tier, seed):
             for d in range(-3, 4):
                 clocks.add(nb + d)
                 clocks.add(na + d)
-        if quick and fmt not in ("packed", "apple"):
+        clocks = {c for c in clocks if 0 < c < 2 ** 33}
+        if quick and (fmt not in ("packed", "apple") or leaf_nb == 0 or leaf_na > T0 + 400 * DAY):
             clocks = set(list(sorted(clocks))[::3]) | {lo - 1, lo, hi - 1, hi}
         for now in sorted(clocks):
             if fmt == "android-safetynet":
@@ -185,6 +224,17 @@ def run(tier, seed):
                     pd, reg = regsim.build(s)
                     B.run_case(regrun.policy_of(pd), reg, "dict", exp, f"{fmt}-clock:leaf-with-unrecognised-extensions", scn=s)
                 s.k.pop("leaf_extra_exts", None)
+    # ... and at the REAL clock with nothing substituted at all (a store whose time was never set), under several process time zones
+    saved_tz2 = os.environ.get("TZ")
+    for tz in ("UTC", "XXX-12", "XXX+12"):
+        os.environ["TZ"] = tz
+        time.tzset()
+        realclock.remarkable_dates(chk, tz)
+    if saved_tz2 is None:
+        os.environ.pop("TZ", None)
+    else:
+        os.environ["TZ"] = saved_tz2
+    time.tzset()
     chk.sample({"subject": "packed chain", "boundaries": "leaf/intermediate/root notBefore/notAfter +-3 s", "rule": "accepted iff notBefore <= now < notAfter for every certificate"})
     # 3b. the attestation certificate itself configured as an anchor (alone, or next to its issuer): its own validity still counts
     for fmt in ("packed", "tpm", "fido-u2f", "apple"):
